@@ -1164,7 +1164,7 @@ def run(ctx):
     nhist = ctx.n(200, 3000)
     if not ctx.lean_ok:                      # search-only mode (10x), keep inside the tier's budget
         nhist = min(nhist, 4000 if ctx.thorough else 550)
-    budget = 780 if ctx.thorough else 95     # seconds of wall clock for the histories
+    budget = 780 if ctx.thorough else 95     # seconds of CPU time of this process for the histories
     h5specs = []
     for _ in range(3 if not ctx.thorough else 12):
         sp = make_spec(ctx.rng, "hdf5")
@@ -1176,7 +1176,7 @@ def run(ctx):
     access_scenario(ctx)
     stale_mixed(ctx)
     for h in range(nhist):
-        if time.time() - ctx.t0 > budget:
+        if time.process_time() > budget:       # CPU time of this process: machine load must not decide what is explored
             ctx.stat("histories_skipped_for_time", nhist - h)
             break
         x = ctx.rng.random()
